@@ -7,9 +7,9 @@ PID = 'C03'
 STATS = G.STATS
 TOL_SPAN = F(1, 100000)
 PARTIAL = [
-    "A2.4 / A2.5 (basis_function_one, basis_function_ders_one) = Cox-de Boor and its derivatives: by exact oracle + correspondence (A2.4) only",
     "A2.3 is modelled at specification level (derivatives of the unit-control-point curves); that the code's table equals it is the exact correspondence; rows-sum-to-zero and row 0 = A2.2 are proved for the model",
-    "knot-vector generation / normalisation / check: model + correspondence + oracle, no Lean theorems yet",
+    "A2.4 (basis_function_one) = Cox-de Boor is proved on the domain except where it is false as worded: the last function at the last knot returns 1 (half-open Cox-de Boor: 0; proved equal to the A2.2 entry of the last span for end-clamped vectors), and the first function at U[0] returns 1 also outside the domain of an unclamped vector / for start multiplicity > p+1 (hypotheses U p <= u, U 0 < U (p+1))",
+    "A2.5 (basis_function_ders_one, literal model) = column of the A2.3 specification table is proved for order <= degree on half-open spans; at the last knot A2.5 returns zeros (no boundary special case, unlike A2.4) - covered only by the closed form",
 ]
 ASSUMPTIONS = ["distinct knots are further apart than the tolerances 1e-5 (binary search) / 1e-7 (multiplicity), except in the tolerance-probe stream"]
 
@@ -51,6 +51,17 @@ def gen(rng, tier):
         else:
             k = G.span_of(kv, p, n, u); d['k'] = k; d['order'] = rng.randint(0, p)
             out.append(Case('bders', "bders %d %s %d %s %d" % (p, U, k, fr(u), d['order']), d))
+    # A2.5 basis_function_ders_one: active functions, arbitrary functions, order up to the degree and
+    # (guard stream) above it
+    for _ in range(70 if tier == 'quick' else 1200):
+        p = rng.randint(1, maxp)
+        kv, n = G.knots(rng, p, clamped=rng.random() < .8)
+        u = G.param(rng, kv, p, n)
+        k0 = G.span_of(kv, p, n, u)
+        i = rng.randint(k0 - p, k0) if rng.random() < .75 else rng.randint(0, n - 1)
+        order = rng.randint(0, p) if rng.random() < .9 else p + rng.randint(1, 2)
+        d = dict(p=p, n=n, kv=kv, u=u, i=i, order=order)
+        out.append(Case('bdersone', "bdersone %d %s %d %s %d" % (p, show_list(kv), i, fr(u), order), d))
     # knot vector generation / normalisation / check, linspace
     for _ in range(40 if tier == 'quick' else 400):
         p = rng.randint(1, 9); n = rng.randint(p + 1, p + 14); c = rng.random() < .7
@@ -98,6 +109,8 @@ def impl(c):
         return ";".join(",".join('None' if x is None else fr(x) for x in row) for row in N)
     if k == 'basisone':
         return fr(helpers.basis_function_one(d['p'], _kv(d), d['i'], q(d['u'])))
+    if k == 'bdersone':
+        return show_list(helpers.basis_function_ders_one(d['p'], _kv(d), d['i'], q(d['u']), d['order']))
     if k == 'bders':
         return show_pts(helpers.basis_function_ders(d['p'], _kv(d), d['k'], q(d['u']), d['order']))
     if k == 'kvgen':
@@ -116,7 +129,7 @@ def oracle(c):
     from geomdl import helpers, knotvector
     d = c.data
     k = c.kind
-    if k in ('span-lin', 'span-bin', 'basis', 'basisall', 'basisone', 'bders', 'mult'):
+    if k in ('span-lin', 'span-bin', 'basis', 'basisall', 'basisone', 'bders', 'bdersone', 'mult'):
         p, n, kv, u = d['p'], d['n'], d['kv'], d['u']
         U = _kv(d); uu = q(u)
         ks = helpers.find_span_linear(p, U, n, uu)
